@@ -175,6 +175,30 @@ fn harness_natives(builder: &mut GlobalsBuilder) {
         eval.eval_function(f, &args.items, &[])
     }
 
+    /// Host-side iteration: iterate `c` from Rust and call `f(x)` for every element (the container is
+    /// locked by the Rust iterator; an error drops the iterator).
+    fn iter_call<'v>(c: Value<'v>, f: Value<'v>, eval: &mut Evaluator<'v, '_, '_>) -> starlark::Result<Value<'v>> {
+        let mut out = Vec::new();
+        for x in c.iterate(eval.heap())? {
+            out.push(eval.eval_function(f, &[x], &[])?);
+        }
+        Ok(eval.heap().alloc(out))
+    }
+
+    /// Host-side partial iteration: take the first `n` elements and drop the iterator early.
+    fn iter_take<'v>(c: Value<'v>, n: i32, eval: &mut Evaluator<'v, '_, '_>) -> starlark::Result<Value<'v>> {
+        let mut it = c.iterate(eval.heap())?;
+        let mut out = Vec::new();
+        for _ in 0..n {
+            match it.next() {
+                Some(x) => out.push(x),
+                None => break,
+            }
+        }
+        drop(it);
+        Ok(eval.heap().alloc(out))
+    }
+
     /// Allocate a fresh host-side list of the arguments (host allocation path).
     fn host_list<'v>(
         #[starlark(args)] args: UnpackTuple<Value<'v>>,
